@@ -128,6 +128,16 @@ def prop_unary(case, stats):
 
 def _classes(case):
     x = case['x']
+    if case.get('f') == 'botched_clip':
+        inside = (x[0] > case['lo']) & (x[0] < case['hi'])
+        extra = ['clip:all-inside' if inside.all() else ('clip:all-outside' if not inside.any() else 'clip:mixed')]
+    else:
+        extra = []
+    return extra + _classes0(case)
+
+
+def _classes0(case):
+    x = case['x']
     c = ['D=%d' % x.shape[0], 'P=%d' % x.shape[1], 'rank=%d' % (x.ndim - 2), 'pattern=' + gen.pattern_class(x)]
     if np.iscomplexobj(x):
         c.append('complex')
@@ -334,15 +344,16 @@ def kink_cases(draw, name, tier):
         lo = draw(gen.nice_floats(-2, 1))
         hi = lo + draw(gen.nice_floats(0.5, 3))
         case['lo'], case['hi'] = lo, hi
-        # base points at distance >= 0.05 from both bounds: below, inside, above
-        def place(u):
-            # u in (0,3): [0,1) below lo, [1,2) inside, [2,3) above
-            if u < 1:
+        # base points at distance >= 0.05 from both bounds; the region (below / inside / above) is drawn explicitly per element
+        # (mapping one float interval onto the three regions would sit at the interval's ends almost always)
+        def place(region, u):
+            if region == 0:
                 return lo - 0.05 - 2 * u
-            if u < 2:
-                return lo + 0.05 + (u - 1) * (hi - lo - 0.1)
-            return hi + 0.05 + 2 * (u - 2)
-        x = draw(gen.utpm_data(D, P, shape, gen.nice_floats(0.0, 2.999).map(place)))
+            if region == 1:
+                return lo + 0.05 + u * (hi - lo - 0.1)
+            return hi + 0.05 + 2 * u
+        base = st.tuples(st.sampled_from([1, 0, 2, 1]), gen.nice_floats(0.0, 1.0)).map(lambda t: place(*t))
+        x = draw(gen.utpm_data(D, P, shape, base))
         case['x'] = x
     return case
 
